@@ -50,4 +50,73 @@ def IsPath (p : Bytes) (is : List Nat) : Prop :=
   (p ≠ [] ∧ ∃ comps : List (Bytes × Nat),
       p = joinPath (comps.map (·.1)) ∧ is = comps.map (·.2) ∧ ∀ cn ∈ comps, IsPathComponent cn.1 cn.2)
 
+
+/-! ### BIP-0032 key derivation, over values
+
+Transcribed from https://github.com/bitcoin/bips/blob/master/bip-0032.mediawiki
+("Conventions", "Child key derivation (CKD) functions", "Master key generation",
+"Serialization format").  The hash functions are parameters. -/
+
+namespace Bip32
+
+/-- `ser32(i)`: a 32-bit unsigned integer as 4 bytes, most significant byte first -/
+def ser32 (i : Nat) : Bytes := natBEpad 4 i
+/-- `ser256(p)`: the integer `p` as 32 bytes, most significant byte first -/
+def ser256 (p : Nat) : Bytes := natBEpad 32 p
+/-- `serP(P)`: SEC1 compressed form `(0x02 or 0x03) ‖ ser256(x)`, the header byte by the parity of `y` -/
+def serP (K : Pt) : Bytes := (if K.2 % 2 = 0 then (0x02 : UInt8) else 0x03) :: ser256 K.1
+/-- `parse256(p)`: a 32-byte sequence as a 256-bit number, most significant byte first -/
+def parse256 (b : Bytes) : Nat := beNat b
+/-- `point(p)`: the coordinate pair of `p · G` -/
+def point (p : Nat) : Pt := smul p G
+
+/-- "Bitcoin seed" -/
+def seedKey : Bytes := [0x42, 0x69, 0x74, 0x63, 0x6f, 0x69, 0x6e, 0x20, 0x73, 0x65, 0x65, 0x64]
+
+/-- the first 32 bits of the key identifier `HASH160(serP(K))` -/
+def fingerprint (hash160 : Bytes → Bytes) (K : Pt) : Bytes := (hash160 (serP K)).take 4
+
+/-- `I` of `CKDpriv((k_par, c_par), i)`: hardened `HMAC-SHA512(c_par, 0x00 ‖ ser256(k_par) ‖ ser32(i))`,
+normal `HMAC-SHA512(c_par, serP(point(k_par)) ‖ ser32(i))`. -/
+def ckdPrivI (hmac512 : Bytes → Bytes → Bytes) (kpar : Nat) (cpar : Bytes) (i : Nat) : Bytes :=
+  if i ≥ 2 ^ 31 then hmac512 cpar ([0x00] ++ ser256 kpar ++ ser32 i)
+  else hmac512 cpar (serP (point kpar) ++ ser32 i)
+
+/-- `CKDpriv((k_par, c_par), i) → (k_i, c_i)`; `none`: "the resulting key is invalid" -/
+def ckdPriv (hmac512 : Bytes → Bytes → Bytes) (kpar : Nat) (cpar : Bytes) (i : Nat) : Option (Nat × Bytes) :=
+  let I := ckdPrivI hmac512 kpar cpar i
+  let IL := I.take 32
+  let IR := I.drop 32
+  let ki := (parse256 IL + kpar) % N
+  if parse256 IL ≥ N ∨ ki = 0 then none else some (ki, IR)
+
+/-- `CKDpub((K_par, c_par), i) → (K_i, c_i)`; `none`: hardened child ("return failure") or
+"the resulting key is invalid" -/
+def ckdPub (hmac512 : Bytes → Bytes → Bytes) (Kpar : Pt) (cpar : Bytes) (i : Nat) : Option (Pt × Bytes) :=
+  if i ≥ 2 ^ 31 then none else
+  let I := hmac512 cpar (serP Kpar ++ ser32 i)
+  let IL := I.take 32
+  let IR := I.drop 32
+  let Ki := padd (point (parse256 IL)) Kpar
+  if parse256 IL ≥ N ∨ Ki = inf then none else some (Ki, IR)
+
+/-- the neutered version `N((k, c)) → (K, c)` -/
+def neuter (k : Nat) (c : Bytes) : Pt × Bytes := (point k, c)
+
+/-- master key generation from a seed `S` of 128 to 512 bits -/
+def master (hmac512 : Bytes → Bytes → Bytes) (S : Bytes) : Option (Nat × Bytes) :=
+  if S.length < 16 ∨ S.length > 64 then none else
+  let I := hmac512 seedKey S
+  let IL := I.take 32
+  let IR := I.drop 32
+  if parse256 IL = 0 ∨ parse256 IL ≥ N then none else some (parse256 IL, IR)
+
+/-- the 78-byte serialization: version ‖ depth ‖ parent fingerprint ‖ child number ‖ chain code ‖
+(`0x00 ‖ ser256(k)` for private keys, `serP(K)` for public keys) -/
+def serialize (version : Bytes) (depth : Nat) (parentFP : Bytes) (childNum : Nat) (c : Bytes)
+    (keyData : Bytes) : Bytes :=
+  version ++ [UInt8.ofNat depth] ++ parentFP ++ ser32 childNum ++ c ++ keyData
+
+end Bip32
+
 end GoBk.Spec
